@@ -133,7 +133,8 @@ fn check_exit_status(ctx: &Ctx, judgements: &[DocJudgement], out: &mut Vec<Viola
         || shell_missing
         || dangling
         || judgements.iter().any(|j| j.run_fail && !j.may_fail)
-        || !ctx.facts.spawn_failed.is_empty();
+        || !ctx.facts.spawn_failed.is_empty()
+        || ctx.facts.fault_kinds.iter().any(|k| k.starts_with("fs_error"));
     let soft = judgements.iter().any(|j| j.may_fail);
     let must_fail = judgements.iter().any(|j| j.must_fail);
     let allowed: Vec<i32> = if hard {
